@@ -39,6 +39,9 @@ def install():
     if _ORIGINALS:
         return 0
     sm = shim_modules()
+    # pysctp is not installed here: the SCTP transport classes import it by name when they are instantiated
+    if "sctp" not in sys.modules and "_sctp" not in sys.modules:
+        sys.modules["sctp"], sys.modules["_sctp"] = fakenet.make_sctp_modules()
     real = {"threading": threading, "queue": queue, "time": time, "random": random, "selectors": selectors,
             "socket": socket, "os": os, "datetime": datetime}
     direct = {}
@@ -124,3 +127,6 @@ def uninstall():
     while _ORIGINALS:
         d, k, v = _ORIGINALS.pop()
         d[k] = v
+    for name in ("sctp", "_sctp"):
+        if getattr(sys.modules.get(name), "__verif_fake__", False):
+            del sys.modules[name]
